@@ -19,5 +19,6 @@ PROPS = {
     "C12": P(["force", "control"], panic_owner="C12"),
     "C13": P(["reconf"]),
     "C14": P(["api"], level="fault_enumeration"),
+    "C15": P(["import"], level="fault_enumeration"),
     "C17": P(["persist", "api"]),
 }
